@@ -30,6 +30,32 @@ from twosigma.memento.serialization import MementoCodec
 from twosigma.memento.types import MementoFunctionType
 
 
+def _stable_repr(o: object) -> str:
+    """
+    Same as `repr`, except that the elements of sets are listed in sorted order, so that the
+    result does not depend on the hash randomization of the process (`x in {"a", "b"}` is
+    compiled into a frozenset constant).
+
+    """
+    if isinstance(o, (set, frozenset)):
+        if len(o) == 0:
+            return repr(o)
+        elements = ", ".join(sorted(_stable_repr(x) for x in o))
+        return (
+            "{" + elements + "}"
+            if type(o) is set
+            else "{}({{{}}})".format(type(o).__name__, elements)
+        )
+    if type(o) is tuple:
+        return (
+            "("
+            + ", ".join(_stable_repr(x) for x in o)
+            + ("," if len(o) == 1 else "")
+            + ")"
+        )
+    return repr(o)
+
+
 def fn_code_hash(fn: Callable, salt: str = None, environment: bytes = None) -> str:
     """
     Compute a hex digest of the code for a function.
@@ -77,7 +103,7 @@ def fn_code_hash(fn: Callable, salt: str = None, environment: bytes = None) -> s
             sha256.update(json.dumps(attr_values, sort_keys=True).encode("utf-8"))
             return sha256.hexdigest()[0:16]
         else:
-            return repr(o)
+            return _stable_repr(o)
 
     if isinstance(fn, MementoFunctionType):
         memento_fn = fn  # type: MementoFunctionType
